@@ -43,7 +43,7 @@ ALPH = ["a", "*", "?", "\\", " ", "%", "-", "1"]
 BOUNDS = {
     "values": f"strings of length <= 2 (quick) / <= 3 (thorough) over {ALPH!r} in 18 detection shapes (single value, lists, |all, |re (+flags), keywords, lists of maps, single-element list, several modifiers, null / number / bool, base64offset, cidr, windash, exists, compare, fieldref, expand, cased)",
     "metadata": "16 metadata variants (dates in both spellings, status, level, tags, related, references, author, fields, falsepositives, scope, taxonomy, custom attributes, name)",
-    "after transformation": "10 transformations x 12 rule shapes",
+    "after transformation": "10 transformations x 16 rule shapes",
     "correlations/filters": "8 types x aliases x group-by x generate x percentile {0, 90} ; extended conditions ; 4 filter shapes",
     "outside": "YAML text with symbolic strings (documents are dumped with yaml.safe_dump per path); longer values",
 }
@@ -168,6 +168,7 @@ TSHAPES = [
     {"f": "v"}, {"f": "v", "g": "ww"}, {"f": ["v", "u"]}, {"f|contains|all": ["v", "uu"], "g|contains|all": "ww"}, {"f|contains|all": ["v", "uu"], "g|contains|all": ["ww", "zz"]},
     {"f|contains|all": "vv", "g|contains|all": "ww", "h|contains|all": "yy"}, ["v", "kk"], [{"f": "v"}, {"g": "ww"}], {"f|startswith": "v", "g": 5}, {"f|re": "v.*", "g|fieldref": "f"},
     {"f|contains": "v", "g|contains": "v"}, {"f": None, "g": "ww"},
+    {"f": ["v", "u"], "g": "ww"}, {"f|contains": "ww", "g|contains": ["v", "u"]}, {"f": ["v", "u"], "g": ["ww", "zz"]}, {"f": ["v", "u"], "g": "ww", "h": "yy"},
 ]
 
 
